@@ -1,7 +1,6 @@
 package main
 
 import (
-	"errors"
 	"fmt"
 	"os"
 	"sort"
@@ -19,13 +18,14 @@ import (
 // quiescent state whose observable (started / finished / recovered tasks, returned Submit calls, state of Shutdown) is
 // predicted by the Lean model.
 
-type panicErr struct{ id int }
-
-func (p *panicErr) Error() string { return "task " + strconv.Itoa(p.id) + " panics" }
-
 type subReq struct {
-	id     int
-	panics bool
+	id   int
+	kind byte // 'n' = returns normally, otherwise a panic value kind (values.go)
+}
+
+type curTask struct {
+	id   int
+	kind byte
 }
 
 type fq struct {
@@ -35,6 +35,7 @@ type fq struct {
 	finished   map[int]int
 	recovered  map[int]int
 	rel        map[int]chan struct{}
+	cur        map[int64]curTask // goroutine id -> the panicking task it is running
 	relAll     bool
 	nextID     int
 	subQueue   []subReq
@@ -54,17 +55,33 @@ func newFQ(workers, depth, inCap, mode int) *fq {
 		finished:  make(map[int]int),
 		recovered: make(map[int]int),
 		rel:       make(map[int]chan struct{}),
+		cur:       make(map[int64]curTask),
 	}
 	f.subCond = sync.NewCond(&f.mu)
 	opts := []taskqueue.Option{taskqueue.Workers(workers), taskqueue.Depth(depth), taskqueue.VerifInCap(inCap)}
 	record := func(err error) {
-		var pe *panicErr
+		// recovered[-1]: a call that cannot be attributed to a panicking task; -2: nil error; -3: the rendering of the
+		// error does not mention the marker of the task although the panic value had text
+		gid := curGID()
+		f.mu.Lock()
+		ct, ok := f.cur[gid]
+		delete(f.cur, gid)
+		f.mu.Unlock()
 		id := -1
-		if errors.As(err, &pe) {
-			id = pe.id
+		if ok {
+			id = ct.id
+		}
+		bad := 0
+		if err == nil {
+			bad = -2
+		} else if ok && hasText(ct.kind) && !strings.Contains(errText(err), marker(ct.id)) {
+			bad = -3
 		}
 		f.mu.Lock()
 		f.recovered[id]++
+		if bad != 0 {
+			f.recovered[bad]++
+		}
 		f.mu.Unlock()
 	}
 	switch mode {
@@ -97,7 +114,7 @@ func (f *fq) relChan(id int) chan struct{} {
 	return ch
 }
 
-func (f *fq) task(id int, panics bool) taskqueue.Task {
+func (f *fq) task(id int, kind byte) taskqueue.Task {
 	return func() {
 		f.mu.Lock()
 		f.started[id]++
@@ -106,9 +123,12 @@ func (f *fq) task(id int, panics bool) taskqueue.Task {
 		<-ch
 		f.mu.Lock()
 		f.finished[id]++
+		if kind != 'n' {
+			f.cur[curGID()] = curTask{id: id, kind: kind}
+		}
 		f.mu.Unlock()
-		if panics {
-			panic(&panicErr{id: id})
+		if kind != 'n' {
+			panicWith(kind, id)
 		}
 	}
 }
@@ -127,7 +147,7 @@ func (f *fq) submitter() {
 		r := f.subQueue[0]
 		f.subQueue = f.subQueue[1:]
 		f.mu.Unlock()
-		f.q.Submit(f.task(r.id, r.panics))
+		f.q.Submit(f.task(r.id, r.kind))
 		f.mu.Lock()
 		f.subDone++
 		f.mu.Unlock()
@@ -360,7 +380,7 @@ func (a *forcedArea) Run(line string) string {
 	}
 	switch w[0] {
 	case "sub":
-		if len(w) != 2 || strings.Trim(w[1], "np") != "" {
+		if len(w) != 2 || strings.Trim(w[1], "n"+valueKinds) != "" {
 			return "bad-op"
 		}
 		if atomic.LoadInt32(&f.shut) != 0 {
@@ -368,7 +388,7 @@ func (a *forcedArea) Run(line string) string {
 		}
 		f.mu.Lock()
 		for _, ch := range w[1] {
-			f.subQueue = append(f.subQueue, subReq{id: f.nextID, panics: ch == 'p'})
+			f.subQueue = append(f.subQueue, subReq{id: f.nextID, kind: byte(ch)})
 			f.nextID++
 			f.subIssued++
 		}
@@ -457,8 +477,8 @@ func (a *forcedArea) Gen(r *hx.Rng, n int, tier string, emit func(string)) {
 				}
 				var sb strings.Builder
 				for j := 0; j < k; j++ {
-					if r.Chance(1, 5) {
-						sb.WriteByte('p')
+					if r.Chance(1, 4) {
+						sb.WriteByte(valueKinds[r.Intn(len(valueKinds))])
 					} else {
 						sb.WriteByte('n')
 					}
@@ -501,7 +521,7 @@ func (a *forcedArea) Gen(r *hx.Rng, n int, tier string, emit func(string)) {
 			case c < 96:
 				out("obs")
 			default:
-				out("sub " + hx.Pick(r, []string{"n", "p"})) // possibly after Shutdown: refused on both sides
+				out("sub " + hx.Pick(r, []string{"n", "p", "z", "s"})) // possibly after Shutdown: refused on both sides
 				if !shutAsked {
 					unreleased = append(unreleased, next)
 					next++
